@@ -23,6 +23,11 @@ func (k Keeper) ClaimVesting(ctx sdk.Context, msg *types.MsgClaimVesting) (*type
 	newClaims := sdk.Coins{}
 	var updatedVestingTokens []*types.VestingTokens
 	for _, vesting := range commitments.VestingTokens {
+		if vesting.VestedSoFar(ctx).LT(vesting.ClaimedAmount) {
+			// a partial cancel lowered the total below what the schedule already released: nothing new yet
+			updatedVestingTokens = append(updatedVestingTokens, vesting)
+			continue
+		}
 		vestedSoFar := vesting.VestedSoFar(ctx)                         // tokens unlocked
 		newClaim := vestedSoFar.Sub(vesting.ClaimedAmount)              // tokens to mint or transfer
 		newClaims = newClaims.Add(sdk.NewCoin(vesting.Denom, newClaim)) // adding coin to mint or transfer
